@@ -157,6 +157,14 @@ static bool is_function(Token *tok, Type *basety);
 static Token *function(Token *tok, Type *basety, VarAttr *attr);
 static Token *global_variable(Token *tok, Type *basety, VarAttr *attr);
 
+// True for a variable length array type and for types derived from one.
+static bool is_variably_modified(Type *ty) {
+  for (; ty; ty = ty->base)
+    if (ty->kind == TY_VLA)
+      return true;
+  return false;
+}
+
 static int align_down(int n, int align) {
   return align_to(n - align + 1, align);
 }
@@ -951,6 +959,8 @@ static Node *declaration(Token **rest, Token *tok, Type *basety, VarAttr *attr) 
 
     if (attr && attr->is_static) {
       // static local variable
+      if (ty->kind == TY_VLA)
+        error_tok(ty->name, "an object with static storage duration cannot be a variable length array");
       Obj *var = new_anon_gvar(ty);
       var->owner = current_fn;
       var->is_tls = attr->is_tls;
@@ -3095,6 +3105,8 @@ static void struct_members(Token **rest, Token *tok, Type *ty) {
       Member *mem = calloc(1, sizeof(Member));
       mem->ty = declarator(&tok, tok, basety);
       mem->name = mem->ty->name;
+      if (is_variably_modified(mem->ty))
+        error_tok(mem->ty->name_pos, "a member cannot have a variably modified type");
       mem->idx = idx++;
       mem->align = attr.align ? attr.align : mem->ty->align;
 
@@ -3782,6 +3794,8 @@ static Token *parse_typedef(Token *tok, Type *basety) {
     Type *ty = declarator(&tok, tok, basety);
     if (!ty->name)
       error_tok(ty->name_pos, "typedef name omitted");
+    if (!scope->next && is_variably_modified(ty))
+      error_tok(ty->name, "a variably modified type cannot be declared at file scope");
     push_scope(get_ident(ty->name))->type_def = ty;
   }
   return tok;
@@ -3979,6 +3993,8 @@ static Token *global_variable(Token *tok, Type *basety, VarAttr *attr) {
     Type *ty = declarator(&tok, tok, basety);
     if (!ty->name)
       error_tok(ty->name_pos, "variable name omitted");
+    if (is_variably_modified(ty))
+      error_tok(ty->name, "an object with static storage duration or linkage cannot have a variably modified type");
 
     // An object may have any number of tentative definitions
     // but only one definition with an initializer.
